@@ -72,6 +72,7 @@ def run(ctx):
     ptypes, consts, borrowed, _r = own.RETURNS_NEW[name]
     own.check_borrowed(ctx, SL + ':' + name, ptypes, consts, borrowed)
   fi = ctx.func(SL + ':_extract_subsequences')
+  first_boundary(ctx, fi)
   unit_advance(ctx, fi)
   rebuild(ctx, fi)
   loops = locate_loops(ctx, fi)
@@ -85,6 +86,82 @@ def run(ctx):
   split_time_changes(ctx)
   split_silence(ctx)
   wrappers(ctx)
+
+
+def first_boundary(ctx, fi):
+  """Location-independent, by boundary scenario (sa.scenario): a note that starts, or a beat that lies, *exactly* on
+  split_times[0] belongs to the first piece (pieces are half-open [t_i, t_i+1)).  Every condition in _extract_subsequences that
+  compares such an element's time with split_times[0] is evaluated under `time == split_times[0]`: a filter that selects the
+  elements must not come out false, a guard that skips them (`if ...: continue / break`) must not come out true."""
+  from sa import scenario
+  fn = fi.node
+  pm = U.parents(fn)
+
+  def binder_source(name, at):
+    cur = pm.get(id(at))
+    while cur is not None:
+      if isinstance(cur, ast.For) and isinstance(cur.target, ast.Name) and cur.target.id == name:
+        return cur.iter
+      if isinstance(cur, (ast.ListComp, ast.GeneratorExp, ast.SetComp)):
+        for g in cur.generators:
+          if isinstance(g.target, ast.Name) and g.target.id == name:
+            return cur
+      cur = pm.get(id(cur))
+    return None
+
+  def kind_of(src):
+    seen = 0
+    while src is not None and seen < 6:
+      seen += 1
+      if isinstance(src, ast.Call) and dotted(src.func) in ('sorted', 'list', 'tuple', 'reversed', 'iter') and src.args:
+        src = src.args[0]
+      elif isinstance(src, ast.Name):
+        x = U.expand_locals(fn, src)
+        if norm_text(x) == norm_text(src):
+          return None
+        src = x
+      else:
+        break
+    t = norm_text(src) if src is not None else ''
+    if '.notes' in t and '.text_annotations' not in t:
+      return 'note'
+    if '.text_annotations' in t and 'BEAT' in t and 'CHORD_SYMBOL' not in t:
+      return 'beat'
+    return None
+  for c in ast.walk(fn):
+    if not isinstance(c, ast.Compare):
+      continue
+    ops = [c.left] + list(c.comparators)
+    if not any(norm_text(o) == 'split_times[0]' for o in ops):
+      continue
+    tm = [o for o in ops if isinstance(o, ast.Attribute) and o.attr in ('time', 'start_time') and isinstance(o.value, ast.Name)]
+    if len(tm) != 1:
+      continue
+    kind = kind_of(binder_source(tm[0].value.id, c))
+    if kind is None:
+      continue
+    sb = scenario.subst_of([(norm_text(tm[0]), 'split_times[0]')])
+    # the role of the comparison: part of a comprehension filter, or of the test of a skipping guard
+    top = c
+    par = pm.get(id(top))
+    while isinstance(par, (ast.BoolOp, ast.UnaryOp)):
+      top, par = par, pm.get(id(par))
+    val = scenario.tv(top, sb)
+    if isinstance(par, ast.comprehension) and any(top is f for f in par.ifs):
+      if val is None:
+        continue
+      ok = val is not False
+      role = 'the filter %s' % norm_text(top)
+    elif isinstance(par, ast.If) and par.test is top and U._terminal(par.body) and not par.orelse:
+      if val is None:
+        continue
+      ok = val is not True
+      role = 'the skipping guard %s' % norm_text(top)
+    else:
+      continue
+    ctx.ob('GRD/first-boundary', fi, c, ok, 'a %s exactly on split_times[0] is kept (%s)' % (kind, role) if ok else
+           '%s excludes a %s whose time equals split_times[0]: pieces are half-open [t_i, t_i+1), so a %s exactly at the start of the extracted range is lost' % (role, kind, kind),
+           construct='%s exactly on the first split time' % kind, definite=True)
 
 
 def unit_advance(ctx, fi):
@@ -539,8 +616,35 @@ def split_hop(ctx):
   _tail(ctx, fi, 'SPLIT/hop', 'valid_split_times')
 
 
+def implicit_defaults(ctx, fi):
+  """Location-independent (a necessary condition): a time signature / tempo event is a change only relative to the value in force,
+  which before the first event is the implicit 4/4 at the default tempo.  A splitter that nowhere refers to the default tempo
+  (constants.DEFAULT_QUARTERS_PER_MINUTE, or its value) or to the literal 4 cannot know them: the first event then always counts
+  as a change and a 4/4 or 120 qpm event inside the sequence produces a spurious split.  (No verdict if the function hands its
+  state to a helper the rules were not confirmed on.)"""
+  from sa import reference
+  fn = fi.node
+  refd = reference.load().get('functions', {})
+  for c in U.calls_in(fn):
+    d = dotted(c.func) or ''
+    if d in fi.module.functions and reference.key(fi.module.rel, d) not in refd:
+      return
+  nodes = U.reachable_nodes(fi)      # the function, the module-level helpers it calls, the module constants they read
+  names = set(norm_text(n) for n in nodes if isinstance(n, (ast.Attribute, ast.Name)))
+  consts = [U.const_value(n) for n in nodes if isinstance(n, ast.Constant)]
+  has_qpm = any(x.endswith('DEFAULT_QUARTERS_PER_MINUTE') for x in names) or 120 in consts or 120.0 in consts
+  has_meter = sum(1 for x in consts if x == 4) >= 1
+  ok = has_qpm and has_meter
+  ctx.ob('SPLIT/time/implicit-defaults', fi, fn, ok, 'the splitter refers to the default tempo and to 4 (the implicit 4/4)' if ok else
+         'split_note_sequence_on_time_changes nowhere refers to %s: the value in force before the first event is unknown to it, so a first tempo of 120 qpm / a first 4/4 inside the '
+         'sequence is treated as a change and produces a split where nothing changes' % ' or '.join(
+             ([] if has_qpm else ['the default tempo (constants.DEFAULT_QUARTERS_PER_MINUTE)']) + ([] if has_meter else ['the implicit 4/4'])),
+         construct='implicit 4/4 and default tempo are the initial state', definite=True)
+
+
 def split_time_changes(ctx):
   fi = ctx.func(SL + ':split_note_sequence_on_time_changes')
+  implicit_defaults(ctx, fi)
   spec = dict(SPLITTER_ROLES)
   for attr in ('numerator', 'denominator', 'qpm'):
     spec['current_' + attr] = (lambda a: lambda fn: roles.assigned_where(fn, lambda v, st: isinstance(v, ast.Attribute) and v.attr == a and isinstance(v.value, ast.Name)))(attr)
